@@ -16,7 +16,8 @@ var wsSym = map[string]string{"a": "a", "DOT": ".", "STAR": "*", "GT": ">", "QM"
 	"CRLF": "\r\n", "DEL": "\x7f", "NA": "\xc3\xa9", "BAD": "\xff", "CID": "{cid}"}
 
 var httpSym = map[string]string{"a": "a", "SLASH": "/", "DOT": ".", "STAR": "*", "P2E": "%2E", "P2A": "%2A", "P3E": "%3E",
-	"P3F": "%3F", "P20": "%20", "P0A": "%0A", "P2F": "%2F", "PFF": "%FF", "CID": "%7Bcid%7D"}
+	"P3F": "%3F", "P20": "%20", "P0A": "%0A", "P2F": "%2F", "PFF": "%FF", "CID": "%7Bcid%7D",
+	"QRY": "?q=1"} // QRY: the URL's own query string (only ever the last symbol)
 
 func envInt(name string, def int) int {
 	if v, err := strconv.Atoi(os.Getenv(name)); err == nil {
@@ -107,6 +108,30 @@ func TestTableSubjects(t *testing.T) {
 			ml = envInt("VERIF_SUBJ_MAPLEN", 3)
 		}
 		allSeqs(httpAlpha, ml, func(s []string) { inputs = append(inputs, input{"http", m, s}) })
+	}
+	// beyond the length bound: the method segment of a call (POST /api/a/<method>, up to VERIF_SUBJ_ACTLEN symbols) and
+	// the last segment of a GET / mapped PUT path, each with and without a query string on the URL
+	al := envInt("VERIF_SUBJ_ACTLEN", 3)
+	allSeqs(httpAlpha, al, func(s []string) {
+		if len(s) == 0 {
+			return
+		}
+		for _, m := range []string{"POST", "GET", "PUT"} {
+			if m != "POST" && len(s) > 2 {
+				continue
+			}
+			with := append(append([]string{"a", "SLASH"}, s...), "QRY")
+			inputs = append(inputs, input{"http", m, with})
+			if len(s)+2 > L || (m == "PUT" && len(s)+2 > envInt("VERIF_SUBJ_MAPLEN", 3)) {
+				inputs = append(inputs, input{"http", m, with[:len(with)-1]})
+			}
+		}
+	})
+	for _, s := range [][]string{{"a", "QRY"}, {"a", "P3F", "SLASH", "P2A"}, {"a", "P3F", "a", "SLASH", "a", "P2E", "a"}, {"a", "SLASH", "a", "SLASH", "a", "P2E", "a", "QRY"},
+		{"a", "SLASH", "a", "P2E", "P2E", "a", "QRY"}, {"a", "SLASH", "a", "P2E", "a", "P2E", "a"}, {"CID", "SLASH", "a", "P2E", "CID", "QRY"}} {
+		for _, m := range []string{"POST", "GET", "PUT", "DELETE"} {
+			inputs = append(inputs, input{"http", m, s})
+		}
 	}
 	// rids supplied by services: a reference value in a model, and the resource of a call response
 	allSeqs(wsAlpha, L, func(s []string) {
